@@ -574,3 +574,47 @@ def zero_delay_retry_nonroundtrip_timeouts(seed, params):
     comps = {c.name: c for c in clients}
     comps.update(pool=pool, pooled=pooled, sidecar=sidecar, slow=slow)
     return Scenario(sim, comps, "clients", True, len(arr) * (2 * len(clients) + 2))
+
+
+# ----------------------------------------------------------------------
+# zero set-up latency paired with pool exhaustion
+
+
+@scenario("clients.zero_setup_latency_pool_exhaustion", "clients")
+def zero_setup_latency_pool_exhaustion(seed, params):
+    """ConnectionPool whose connections cost ZERO set-up time, fewer connections than concurrent users, holders
+    keeping a connection for a positive time: waiters go through the polling / hand-over path with a zero set-up
+    latency (generator API), and a PooledClient bursts into a one-connection zero-latency pool in front of a slow target."""
+    p = P(params, seed)
+    hold = p.hold()
+    slow = Replier("slow", p.lat(0))
+    pool = ConnectionPool(
+        "pool", target=slow, min_connections=0, max_connections=p.cap(2), connection_timeout=hold * 40 + 1.0,
+        idle_timeout=p.lat(1) * 50, connection_latency=ConstantLatency(0.0),
+    )  # fmt: skip
+    pool1 = ConnectionPool(
+        "pool1", target=slow, min_connections=0, max_connections=1, connection_timeout=p.lat(0) * 60 + 1.0,
+        idle_timeout=p.lat(1) * 50, connection_latency=ConstantLatency(0.0),
+    )  # fmt: skip
+    pooled = PooledClient("pooled", connection_pool=pool1, timeout=p.lat(0) * 30, retry_policy=NoRetry())
+
+    def worker(proc, event):
+        conn = yield from pool.acquire()
+        yield hold
+        out = pool.release(conn)
+        proc.done += 1
+        return out
+
+    arr = p.arrivals(8)
+    procs = [Proc(f"w{i}", worker) for i in range(len(arr))]
+
+    def caller(proc, event):
+        proc.done += 1
+        return [pooled.send_request(payload={"i": event.context["metadata"]["i"]})]
+
+    api = Proc("caller", caller)
+    sim = make_sim([pool, pool1, pooled, slow, api, *procs], max(p.end(), max(arr) / 1e9 + (hold + p.lat(0)) * (len(arr) + 2) + 2.0))
+    for i, t in enumerate(arr):
+        sim.schedule(ev(t, "start", procs[i], worker=i))
+        sim.schedule(ev(t, "call", api, i=i))
+    return Scenario(sim, {"pool": pool, "pool1": pool1, "pooled": pooled, "slow": slow}, "clients", True, 2 * len(arr))
